@@ -20,6 +20,8 @@ EXPLANATION = (
     'get_values); (R4) no statement of mask.py writes through the image or user mask parameters, including through '
     'the view cutout(copy=False) may return; (R5) multiply zeroes with the mask\'s own data==0 map and get_values '
     'selects weights>0 & ~mask[large]. Not decided: dtype promotion, fill-value/Quantity interaction (numpy/astropy).')
+EXPLANATION_ADDED = (" Also (R2): the full-overlap shortcut of cutout is taken exactly when the small window has the mask's shape (stop-start of axis 0 and of axis 1); (R6) the mask operations read the current weight array and box only, no value derived once in the constructor.")
+EXPLANATION += EXPLANATION_ADDED
 TRUSTED = ['numpy basic slicing returns a view; arithmetic returns a new array', 'np.zeros, np.copy']
 ASSUMPTIONS = ['external numpy calls are pure']
 
